@@ -254,12 +254,95 @@ def list_dirs(src):
     return out
 
 
+def _is_call_to(node, names):
+    return isinstance(node, ast.Call) and isinstance(node.func, ast.Name) and node.func.id in names
+
+
+def parse_rc(path):
+    """The run-time switch rc(schema=...): inside `def rc`, `for key in keywords: if key == "schema":
+    if keywords[key] in [<literals>]: <assignments> elif ...`.  Returns [{"names": [...], "steps": [...]}]
+    in branch order; raises when a load_dvt / Model call of rc (or of any other function of settings.py)
+    is not inside such a branch or has another shape."""
+    fn = os.path.relpath(path, env.REPO)
+    tree = ast.parse(open(path, encoding="utf8").read())
+    branches, extracted = [], 0
+    total = sum(1 for f in tree.body if isinstance(f, (ast.FunctionDef, ast.ClassDef))
+                for n in ast.walk(f) if _is_call_to(n, ("load_dvt", "Model", "compile_model", "compile_dvt")))
+    for f in tree.body:
+        if not (isinstance(f, ast.FunctionDef) and f.name == "rc"):
+            continue
+        for loop in [n for n in f.body if isinstance(n, ast.For)]:
+            if not (isinstance(loop.iter, ast.Name) and loop.iter.id == "keywords" and isinstance(loop.target, ast.Name)):
+                continue
+            kv = loop.target.id
+            for st in loop.body:
+                if not (isinstance(st, ast.If) and isinstance(st.test, ast.Compare) and len(st.test.ops) == 1
+                        and isinstance(st.test.ops[0], ast.Eq) and isinstance(st.test.left, ast.Name)
+                        and st.test.left.id == kv and isinstance(st.test.comparators[0], ast.Constant)
+                        and st.test.comparators[0].value == "schema"):
+                    continue
+                if st.orelse or len(st.body) != 1 or not isinstance(st.body[0], ast.If):
+                    _fail(st, "the schema switch of rc() is not a single if/elif chain", fn)
+                node = st.body[0]
+                while node is not None:
+                    tst = node.test
+                    ok = (isinstance(tst, ast.Compare) and len(tst.ops) == 1 and isinstance(tst.ops[0], ast.In)
+                          and isinstance(tst.left, ast.Subscript) and isinstance(tst.left.value, ast.Name)
+                          and tst.left.value.id == "keywords" and isinstance(tst.left.slice, ast.Name)
+                          and tst.left.slice.id == kv and isinstance(tst.comparators[0], (ast.List, ast.Tuple)))
+                    if not ok:
+                        _fail(node, "schema branch test is not `keywords[key] in [<literals>]`", fn)
+                    names = [_const_str(e, fn, "schema name") for e in tst.comparators[0].elts]
+                    steps = []
+                    for b in node.body:
+                        if not isinstance(b, ast.Assign) or len(b.targets) != 1:
+                            _fail(b, "statement in a schema branch is not a simple assignment", fn)
+                        calls = [n for n in ast.walk(b) if isinstance(n, ast.Call)]
+                        if not calls:
+                            continue
+                        if len(calls) != 1 or calls[0] is not b.value:
+                            _fail(b, "call in a schema branch is not the whole right-hand side", fn)
+                        c, tgt = b.value, b.targets[0]
+                        if _is_call_to(c, ("load_dvt",)):
+                            if c.args or len(c.keywords) != 1 or c.keywords[0].arg != "path":
+                                _fail(c, "load_dvt call of unknown shape", fn)
+                            arg = _const_str(c.keywords[0].value, fn, "load_dvt path")
+                            if arg not in KNOWN_DVT_PATHS:
+                                _fail(c, "load_dvt with a custom directory", fn)
+                            steps.append({"kind": "dvt", "arg": arg, "line": c.lineno, "key": None})
+                        elif _is_call_to(c, ("Model",)):
+                            if len(c.args) != 1 or c.keywords:
+                                _fail(c, "Model(...) must have exactly one positional literal argument", fn)
+                            arg = _const_str(c.args[0], fn, "Model argument")
+                            if not NAME_RE.match(arg):
+                                _fail(c, "model name is not a plain identifier", fn)
+                            if not (isinstance(tgt, ast.Subscript) and isinstance(tgt.value, ast.Name)
+                                    and tgt.value.id == "rcParams_" and isinstance(tgt.slice, ast.Constant)):
+                                _fail(b, "Model(...) is not stored as rcParams_['<key>']", fn)
+                            steps.append({"kind": "model", "arg": arg, "line": c.lineno, "key": tgt.slice.value})
+                        else:
+                            _fail(c, "call of %s in a schema branch" % ast.dump(c.func)[:60], fn)
+                        extracted += 1
+                    branches.append({"names": names, "steps": steps})
+                    if len(node.orelse) == 1 and isinstance(node.orelse[0], ast.If):
+                        node = node.orelse[0]
+                    elif node.orelse:
+                        _fail(node, "schema switch has an else branch", fn)
+                    else:
+                        node = None
+    if extracted != total:
+        raise Untranslatable("%s: %d of %d load_dvt/Model calls inside functions are outside the schema switch of rc()"
+                             % (fn, total - extracted, total))
+    return branches
+
+
 def extract(src=None):
     src = src or env.SRC
     steps = parse_settings(os.path.join(src, "lingpy", "settings.py"))
+    schemas = parse_rc(os.path.join(src, "lingpy", "settings.py"))
     scan_other_modules(src)
     dirs = list_dirs(src)
-    return {"steps": steps, "dirs": dirs}
+    return {"steps": steps, "dirs": dirs, "schemas": schemas}
 
 
 def _s(x):
@@ -280,8 +363,13 @@ def render(info):
             "   (source lines: %s) *)\n"
             "Definition import_seq : list step :=\n  [%s].\n\n"
             "(* data/models: directory -> files present *)\n"
-            "Definition model_dirs : dirs :=\n [%s].\n"
-            % (", ".join(str(s["line"]) for s in info["steps"]), seq, dirs))
+            "Definition model_dirs : dirs :=\n [%s].\n\n"
+            "(* rc(schema=v): the if/elif chain of settings.rc - accepted spellings -> calls, in order *)\n"
+            "Definition schema_seqs : list (list string * list step) :=\n [%s].\n"
+            % (", ".join(str(s["line"]) for s in info["steps"]), seq, dirs,
+               ";\n  ".join("([%s], [%s])" % ("; ".join(_s(n) for n in b["names"]),
+                                              "; ".join(("LoadDvt %s" if s["kind"] == "dvt" else "NewModel %s") % _s(s["arg"])
+                                                        for s in b["steps"])) for b in info["schemas"])))
 
 
 def generate():
